@@ -606,9 +606,104 @@ def r4_matches_contract(ck, rule, tah, T, needle, ctx):
                            tah.where(dd[3]) if dd[0] == "stmt" else tah.where(), ok_detail=df.show(e, 120))
 
 
+def r5_no_match_verdicts(ck, rule="C02-R5"):
+    """A hunk may be reported Failed(NoMatchingLines) only when no admissible position can match: its old side is longer than the
+    file, or the direct probe failed AND (the hunk is anchored / this is a rollback - no other position is admissible - or the scan
+    ran out of candidates).  A verdict reached after the failed probe by any other route gives up without having looked."""
+    from .. import pathconst
+    tah = ck.anchor("libpatch::patch::try_apply_hunk")
+    if tah is None:
+        return
+    verdicts = []
+    for bb, idx, s in tah.stmts():
+        if s["k"] == "assign" and s["rv"]["k"] == "agg" and (s["rv"].get("adt") or "").endswith("HunkApplyReport") and s["rv"].get("variant") == "Failed" and \
+                not tah.blocks[bb]["cleanup"]:
+            e = df.operand_expr(tah, s["rv"]["ops"][0])
+            if isinstance(e, tuple) and e[0] == "agg" and e[2] == "NoMatchingLines":
+                verdicts.append((bb, s))
+    ck.floor(rule, "NoMatchingLines verdicts in try_apply_hunk", len(verdicts), 2)
+    probes = [(bb, t) for bb, t, c in calls_named(tah, MATCHES) if not cfg.innermost_loop_of(tah, bb)]
+    if not ck.require(len(probes) == 1, rule, "one direct probe in try_apply_hunk", "%d direct probes" % len(probes), tah.where()):
+        return
+    pbb, pt_ = probes[0]
+    # edges on which the direct probe has failed
+    failed_edges = []
+    for g in guards.find_bool_guards(tah, lambda x: df.is_call(x, "try_apply_hunk::matches")):
+        if g["bb"] == tah.blocks[pbb]["term"].get("target") or cfg.dominates(tah, pbb, g["bb"]) and not cfg.innermost_loop_of(tah, g["bb"]):
+            failed_edges.append(g["false_edge"])
+    after_fail = set()
+    for e_ in failed_edges:
+        after_fail |= cfg.dominated_by_edge(tah, e_)
+    # where no other position is admissible: rollback mode, or a hunk that is not Middle
+    normal_only = pathconst.reach_under(tah, lambda e: None, lambda e, adt: "Normal" if (adt or "").endswith("ApplyMode") else None)
+    rollback_only = pathconst.reach_under(tah, lambda e: None, lambda e, adt: "Rollback" if (adt or "").endswith("ApplyMode") else None)
+    anchored = set()
+    for g in guards.find_bool_guards(tah, lambda x: isinstance(x, tuple) and x[0] == "call" and x[1].split("::")[-1] in ("eq", "ne") and
+                                     any(df.is_call(a, "::position") or (isinstance(a, tuple) and a[0] == "param") for a in x[2])):
+        pv = [guards.promoted_value(tah, a) for a in g["expr"][2]]
+        if any(p_ and p_[0] == "enum" and p_[2] == "Middle" for p_ in pv):
+            edge = g["false_edge"] if g["expr"][1].endswith("::eq") else g["true_edge"]
+            anchored |= cfg.dominated_by_edge(tah, edge)
+    # what a floating hunk (Middle) in normal mode can reach - whether the two tests are nested, merged with || or go through flags
+    def middle_atom(e):
+        if isinstance(e, tuple) and e and e[0] == "call" and e[1].split("::")[-1] in ("eq", "ne") and len(e[2]) == 2:
+            pv = [guards.promoted_value(tah, a) for a in e[2]]
+            if any(p_ and p_[0] == "enum" and p_[2] == "Middle" for p_ in pv) and \
+                    any(df.is_call(a, "::position") or (isinstance(a, tuple) and a[0] == "param") for a in e[2]):
+                return e[1].endswith("::eq")
+        return None
+    floating = pathconst.reach_under(tah, middle_atom, lambda e, adt: "Normal" if (adt or "").endswith("ApplyMode") else None)
+    # where the scan has run out
+    exhausted = set()
+    for sc in scan_sites(ck, tah):
+        if sc["kind"] == "loop":
+            for il in pt.iterator_loops(tah):
+                if sc["bb"] in il["body"] and il["none_edge"]:
+                    exhausted |= cfg.dominated_by_edge(tah, il["none_edge"])
+        else:
+            fe = df.call_expr(tah, sc["term"])
+            for sw in pt.discr_switches(tah, lambda x, rv: x == fe):
+                if sw["edges"].get("None"):
+                    exhausted |= cfg.dominated_by_edge(tah, sw["edges"]["None"])
+    # ... also when the scan records its hit in an Option that starts as None: the None arm of a later match on it is "ran out"
+    for sw in pt.discr_switches(tah, lambda x, rv: True):
+        if sw.get("adt") != "core::option::Option" or not sw["edges"].get("None") or "place" not in sw or sw["place"].get("p"):
+            continue
+        l = sw["place"]["l"]
+        ds = [dd for dd in df.defs_through_copies(tah, l) if dd[0] == "stmt"]
+        if len(ds) < 2 or len(ds) != len(df.defs_through_copies(tah, l)):
+            continue
+        nones = [dd for dd in ds if dd[3]["rv"]["k"] == "agg" and dd[3]["rv"].get("variant") == "None"]
+        somes = [dd for dd in ds if dd[3]["rv"]["k"] == "agg" and dd[3]["rv"].get("variant") == "Some"]
+        scan_loops = [il for il in pt.iterator_loops(tah) if any(sc["kind"] == "loop" and sc["bb"] in il["body"] for sc in scan_sites(ck, tah))]
+        # a hit is recorded on the way out of the scan (inside it, or on the `break` path: below the loop head, not behind its exhaustion)
+        in_scan = lambda b_: any(cfg.dominates(tah, il["head"], b_) and b_ != il["head"] and
+                                 not (il["none_edge"] and b_ in cfg.dominated_by_edge(tah, il["none_edge"])) for il in scan_loops)
+        if nones and somes and len(nones) + len(somes) == len(ds) and all(cfg.innermost_loop_of(tah, dd[1]) is None and not in_scan(dd[1]) for dd in nones) and \
+                all(in_scan(dd[1]) for dd in somes):
+            exhausted |= cfg.dominated_by_edge(tah, sw["edges"]["None"])
+    for bb, s in verdicts:
+        if bb not in after_fail:
+            # before / independent of the probe: must rest on a comparison of the two lengths
+            lens = [g for g in guards.find_bool_guards(tah, lambda x: isinstance(x, tuple) and x[0] == "bin" and x[1] in ("Gt", "Lt", "Ge", "Le"))
+                    if df.mentions(g["expr"], lambda y: df.is_call(y, "::len")) and
+                    (bb in cfg.dominated_by_edge(tah, g["true_edge"]) or bb in cfg.dominated_by_edge(tah, g["false_edge"]))]
+            ck.require(bool(lens), rule, "a NoMatchingLines verdict without a probe rests on the hunk being longer than the file",
+                       "try_apply_hunk reports NoMatchingLines here without having probed any position and without comparing the lengths",
+                       tah.where(s), ok_detail="guarded by a length comparison")
+            continue
+        only_rb = bb in rollback_only and bb not in normal_only
+        ok = only_rb or bb in anchored or bb in exhausted or bb not in floating
+        ck.require(ok, rule, "after the direct probe failed, NoMatchingLines is only reported when no other position is admissible or all were tried",
+                   "try_apply_hunk gives up with NoMatchingLines after the direct probe although the hunk may float (Middle, normal mode) and the "
+                   "scan over the other positions has not run out: a position that matches would be missed", tah.where(s),
+                   ok_detail="rollback" if only_rb else "anchored hunk" if bb in anchored else "scan exhausted")
+
+
 def run(ck):
     r1(ck)
     r2(ck)
+    r5_no_match_verdicts(ck)
     r3(ck)
     from . import c01
     c01.r6(ck, rule="C02-R3")      # the context counts anchoring and trimming rest on are counted from the line markers
